@@ -21,11 +21,12 @@ fn replay_case(prop: &str, case: &Value) -> Vec<Violation> {
         "history" => props::history::replay(case),
         "listing" => props::listing::replay(prop, case),
         "layout11" | "layout12" | "layout13" => props::layout::replay(case),
-        "marker" => props::marker::replay(case),
+        "marker" | "marker-dup" => props::marker::replay(case),
         "cli" => props::cli::replay(prop, case),
-        "time" | "time-mono" => props::time::replay(case),
+        "time" | "time-mono" | "time-dup" => props::time::replay(case),
         "doc" => props::doc::replay(prop, case),
         "doc-plain" => replay_plain(prop, case),
+        "child-tz" => replay_child_tz(prop, case),
         "tag" | "tag-opaque" => props::tag::replay(case),
         other => {
             eprintln!("MACHINERY: unknown replay engine {other:?}");
@@ -45,7 +46,7 @@ fn plain_release_pass(r: &Report, tier: &str) {
     }
     let out = std::process::Command::new(PLAIN_BIN)
         .args(["C01", tier])
-        .env("MC_PLAIN_CHILD", "1")
+        .env("MC_CHILD", "1")
         .output();
     let out = match out {
         Ok(o) => o,
@@ -93,6 +94,94 @@ fn plain_release_pass(r: &Report, tier: &str) {
     );
 }
 
+/// Run the same property exploration in a child process under another time zone and merge its
+/// violations (C05: the decision must not depend on the process environment).
+pub fn child_pass(r: &Report, prop: &str, tz: &str) {
+    let exe = std::env::current_exe().unwrap_or_else(|_| "/verif/target/mc/release/mc".into());
+    let out = std::process::Command::new(&exe)
+        .args([prop, r.tier.name()])
+        .env("MC_CHILD", "1")
+        .env("TZ", tz)
+        .output();
+    let out = match out {
+        Ok(o) if o.status.success() => o,
+        Ok(o) => {
+            r.machinery_failure(format!("child under TZ={tz} terminated abnormally ({:?})", o.status));
+            return;
+        }
+        Err(e) => {
+            r.machinery_failure(format!("cannot run child under TZ={tz}: {e}"));
+            return;
+        }
+    };
+    let text = String::from_utf8_lossy(&out.stdout);
+    let Some(v) = text
+        .lines()
+        .rev()
+        .find(|l| l.starts_with('{'))
+        .and_then(|l| serde_json::from_str::<Value>(l).ok())
+    else {
+        r.machinery_failure(format!("child under TZ={tz} produced no summary"));
+        return;
+    };
+    for m in v["machinery_failures"].as_array().cloned().unwrap_or_default() {
+        r.machinery_failure(format!("child under TZ={tz}: {m}"));
+    }
+    for x in v["violations"].as_array().cloned().unwrap_or_default() {
+        let mut case = x["case"].clone();
+        case["child_engine"] = case["engine"].clone();
+        case["engine"] = Value::String("child-tz".into());
+        case["tz"] = Value::String(tz.into());
+        r.violation(Violation {
+            prop: prop.into(),
+            class: format!("TZ={tz}:{}", x["class"].as_str().unwrap_or("?")),
+            case,
+            detail: format!("[process TZ={tz}] {}", x["detail"].as_str().unwrap_or("")),
+        });
+    }
+    r.extra(
+        &format!("child_pass_TZ_{tz}"),
+        serde_json::json!({"evaluations": v["evaluations"], "states": v["states"],
+            "violations_total_observed": v["violations_total_observed"]}),
+    );
+}
+
+/// replay of a counterexample found by a child pass: run a child under the same zone
+fn replay_child_tz(prop: &str, case: &Value) -> Vec<Violation> {
+    let tz = case["tz"].as_str().unwrap_or("UTC").to_string();
+    let dir = "/verif/target/tmp";
+    let _ = std::fs::create_dir_all(dir);
+    let path = format!("{dir}/child-replay-{}.json", std::process::id());
+    let mut c = case.clone();
+    c["engine"] = c["child_engine"].clone();
+    let body = serde_json::json!({"property": prop, "case": c});
+    if std::fs::write(&path, body.to_string()).is_err() {
+        return vec![];
+    }
+    let exe = std::env::current_exe().unwrap_or_else(|_| "/verif/target/mc/release/mc".into());
+    let out = std::process::Command::new(&exe)
+        .args(["replay", &path])
+        .env("MC_CHILD", "1")
+        .env("TZ", &tz)
+        .output();
+    let _ = std::fs::remove_file(&path);
+    let Ok(out) = out else { return vec![] };
+    let text = String::from_utf8_lossy(&out.stdout);
+    let mut v = vec![];
+    for l in text.lines() {
+        if let Some(rest) = l.strip_prefix("  class=") {
+            let (class, detail) = rest.split_once(" detail=").unwrap_or((rest, ""));
+            v.push(Violation {
+                prop: prop.into(),
+                class: format!("TZ={tz}:{class}"),
+                case: case.clone(),
+                detail: format!("[process TZ={tz}] {detail}"),
+            });
+        }
+    }
+    v
+}
+
 /// replay of a plain-release counterexample: run the plain binary on it
 fn replay_plain(prop: &str, case: &Value) -> Vec<Violation> {
     let dir = "/verif/target/tmp";
@@ -106,7 +195,7 @@ fn replay_plain(prop: &str, case: &Value) -> Vec<Violation> {
     }
     let out = std::process::Command::new(PLAIN_BIN)
         .args(["replay", &path])
-        .env("MC_PLAIN_CHILD", "1")
+        .env("MC_CHILD", "1")
         .output();
     let _ = std::fs::remove_file(&path);
     let Ok(out) = out else { return vec![] };
@@ -186,7 +275,7 @@ fn main() {
             std::process::exit(2);
         }
     }
-    if std::env::var("MC_PLAIN_CHILD").is_ok() {
+    if std::env::var("MC_CHILD").is_ok() {
         println!("{}", r.child_summary());
         std::process::exit(0);
     }
